@@ -199,13 +199,13 @@ type Disk struct {
 	FaultHit        *Op
 	// EagerEOF: a read that ends exactly at the end of the file returns io.EOF together with the full count
 	// (the other behaviour io.ReaderAt allows; os.File returns nil there)
-	EagerEOF bool
-	faultKindHit    OpKind
-	FaultOps        int  // faultable ops seen so far
-	NoLog           bool // do not record the op log (engines that only need the volatile view)
-	FaultReads      bool // also count list/load as faultable (OpNote kinds "list","load")
-	FaultFileReads  bool // also count ReadAt on files as faultable
-	FaultPaused     bool // the harness itself is reading (observation): nothing is injected or counted
+	EagerEOF       bool
+	faultKindHit   OpKind
+	FaultOps       int  // faultable ops seen so far
+	NoLog          bool // do not record the op log (engines that only need the volatile view)
+	FaultReads     bool // also count list/load as faultable (OpNote kinds "list","load")
+	FaultFileReads bool // also count ReadAt on files as faultable
+	FaultPaused    bool // the harness itself is reading (observation): nothing is injected or counted
 }
 
 // NewDisk mounts a durable state.
@@ -598,6 +598,20 @@ func (d *Disk) StableGet(k string) []byte {
 		return nil
 	}
 	return append([]byte{}, v...)
+}
+
+// StableGetF is StableGet as the code under test reaches it: a faultable step while reads are being faulted
+// (the harness's own observations pause faults).
+func (d *Disk) StableGetF(k string) ([]byte, error) {
+	d.mu.Lock()
+	if d.FaultReads && !d.FaultPaused {
+		if d.fault(OpNote) != FaultNone {
+			d.mu.Unlock()
+			return nil, ErrInjected
+		}
+	}
+	d.mu.Unlock()
+	return d.StableGet(k), nil
 }
 
 func (d *Disk) StableSet(k string, v []byte) error {
